@@ -185,6 +185,8 @@ pub fn render(p: &Program, deco: u64, spacing: u64, o: &Opts) -> Rendered {
         OwnLineComment(String),
         InlineBlock(String),
         MultiBlock(String),
+        /// a line comment followed by another comment (block on the next line, or a second line comment)
+        TwoComments(String, String),
     }
     let n = toks.len();
     let mut deco_before: Vec<Deco> = vec![Deco::None; n + 1];
@@ -205,6 +207,10 @@ pub fn render(p: &Program, deco: u64, spacing: u64, o: &Opts) -> Rendered {
             Deco::InlineBlock(block_comments[r.gen_range(0..block_comments.len())].to_string())
         } else if o.comments && is_marked(i) && x >= 250 && x < 280 {
             Deco::MultiBlock("{ multi\n  line }".to_string())
+        } else if o.comments && is_marked(i) && x >= 280 && x < 330 {
+            // (a comment on its own line in the middle of a construct is a placement that several parser heuristics do not
+            // see through - see DESIGN.md, findings; own-line comments are generated between statements / declarations)
+            Deco::TwoComments(line_comments[r.gen_range(0..line_comments.len())].to_string(), if x % 2 == 0 { block_comments[r.gen_range(0..block_comments.len())].to_string() } else { line_comments[r.gen_range(0..line_comments.len())].to_string() })
         } else {
             Deco::None
         };
@@ -348,6 +354,20 @@ pub fn render(p: &Program, deco: u64, spacing: u64, o: &Opts) -> Rendered {
                 text.push_str(nlc);
                 text.push_str(&ind_c);
                 inserted += 1;
+            }
+            Deco::TwoComments(c1, c2) => {
+                text.push(' ');
+                text.push_str(c1);
+                text.push_str(nlc);
+                text.push_str(&ind_c);
+                text.push_str(c2);
+                if c2.starts_with("//") {
+                    text.push_str(nlc);
+                    text.push_str(&ind_c);
+                } else {
+                    text.push(' ');
+                }
+                inserted += 2;
             }
             Deco::InlineBlock(c) => {
                 text.push(' ');
